@@ -338,10 +338,12 @@ fn arc_remove_purge() {
         if lookup(&all, k).is_none() {
             assert!(r.is_none() && post == pre, "[C02.remove] removing a key that is not retained returns None and changes nothing");
         }
-        assert!(!c.contains(&k) && holders(&[&post.recent, &post.frequent, &post.recent_evict, &post.frequent_evict], k) == 0, "[C02.absent] a removed key is retained nowhere afterwards");
+        assert!(!c.contains(&k) && holders(&[&post.recent, &post.frequent], k) == 0, "[C02.absent] a removed key is no longer resident");
         let rm = |a: &Abs| match a.pos(k) { Some(i) => a.remove_at(i), None => a.canon() };
-        assert!(post == ArcAbs { recent: rm(&pre.recent), frequent: rm(&pre.frequent), recent_evict: rm(&pre.recent_evict), frequent_evict: rm(&pre.frequent_evict), ..pre },
-            "[C09.remove][C02.map] remove takes out exactly that key; order of everything else, and p, kept");
+        assert!(post.recent == rm(&pre.recent) && post.frequent == rm(&pre.frequent) && post.p == pre.p, "[C09.remove][C02.map] remove takes out exactly that key from the resident lists; order of everything else, and p, kept");
+        // the statement says nothing about ghosts of a removed key: each ghost list is unchanged or has lost exactly that key
+        assert!((post.recent_evict == pre.recent_evict.canon() || post.recent_evict == rm(&pre.recent_evict))
+            && (post.frequent_evict == pre.frequent_evict.canon() || post.frequent_evict == rm(&pre.frequent_evict)), "[C09.remove] remove leaves the other ghosts alone");
     }
     c.verif_forget();
 }
